@@ -261,6 +261,10 @@ theorem C08_fresh_envelope_delivers_once :
 theorem C08_in_flight_calls_fail_uniformly :
     Skeleton.current.bcRecvSelectsDone = true ∧ Skeleton.current.bcReceiveErrorsOnlyClosed = true := by decide
 
+/-- What a closure receives depends on its declared parameter types only, not on the dynamic type the serializer's generic decoder produced (`float64` under JSON, `uint64` / `int64` under CBOR): the wrapper's conversion loop is convert–check–store and nothing else, no type assertion on the decoded argument (checked against the regenerated skeleton; `rpc/manager.go` is outside this property's anchors). -/
+theorem C08_closure_arguments_converted_by_declared_type_only :
+    Skeleton.current.clConvertsEveryArg = true ∧ Skeleton.current.cvUsesConvertibleTo = true := by decide
+
 end Panrpc.St
 
 #print axioms Panrpc.St.C08_envelope_fresh_per_frame
@@ -279,3 +283,4 @@ end Panrpc.St
 #print axioms Panrpc.St.decoder_finishes_if_readers_stay
 #print axioms Panrpc.St.decoder_wedges_on_pinned
 #print axioms Panrpc.St.C08_in_flight_calls_fail_uniformly
+#print axioms Panrpc.St.C08_closure_arguments_converted_by_declared_type_only
